@@ -165,25 +165,15 @@ func NewPathConds(t *Terms) *PathConds {
 			if b.Dominates(pr) {
 				continue // back edge
 			}
-			pc, ok := p.cond[pr]
-			if !ok {
+			if _, ok := p.cond[pr]; !ok {
 				continue
 			}
-			if pc.unknown {
+			cs, known := p.through(pr, b, 0)
+			if !known {
 				unknown = true
 				break
 			}
-			eds := p.edgeDNF(pr, b)
-			if isLoopHeader(pr) && !loopBody(pr)[b] {
-				eds = []conj{{}} // leaving a loop: its exit test is about loop-variant values
-			}
-			for _, c := range pc.cs {
-				for _, e := range eds {
-					if n, ok := conjMerge(c, e); ok {
-						acc = append(acc, n)
-					}
-				}
-			}
+			acc = append(acc, cs...)
 		}
 		if unknown {
 			p.cond[b] = dnf{unknown: true}
@@ -197,6 +187,132 @@ func NewPathConds(t *Terms) *PathConds {
 		p.cond[b] = dnf{cs: acc}
 	}
 	return p
+}
+
+// through: the ways control reaches `to` through its predecessor `from`. Normally the
+// reaching condition of `from` conjoined with the condition of the edge. When `from`
+// branches on a merged boolean of its own (`x := a || b` materialised as a phi, as in
+// `switch { case a || b: }`), the merge is resolved per incoming edge: an edge that brings
+// the constant true only continues to the true successor, an edge that brings a computed
+// value contributes that value's literal.
+func (p *PathConds) through(from, to *ssa.BasicBlock, depth int) ([]conj, bool) {
+	pc := p.cond[from]
+	if pc.unknown {
+		return nil, false
+	}
+	if isLoopHeader(from) && !loopBody(from)[to] {
+		return pc.cs, true // leaving a loop: its exit test is about loop-variant values
+	}
+	if ph, want, ok := phiBranch(from, to); ok && !isLoopHeader(from) {
+		if cs, known := p.valueWays(ph, from, want, depth); known {
+			return cs, true
+		}
+	}
+	var out []conj
+	eds := p.edgeDNF(from, to)
+	for _, c := range pc.cs {
+		for _, e := range eds {
+			if n, ok := conjMerge(c, e); ok {
+				out = append(out, n)
+			}
+		}
+	}
+	return out, true
+}
+
+// valueWays: the ways of reaching the end of block `at` with the boolean v equal to want.
+func (p *PathConds) valueWays(v ssa.Value, at *ssa.BasicBlock, want bool, depth int) ([]conj, bool) {
+	pc, ok := p.cond[at]
+	if !ok || pc.unknown || depth > 6 {
+		return nil, false
+	}
+	switch x := v.(type) {
+	case *ssa.Const:
+		if x.Value != nil && x.Value.Kind() == constant.Bool {
+			if constant.BoolVal(x.Value) == want {
+				return pc.cs, true
+			}
+			return nil, true
+		}
+	case *ssa.UnOp:
+		if x.Op == token.NOT {
+			return p.valueWays(x.X, at, !want, depth)
+		}
+	case *ssa.Phi:
+		if x.Block() == at && !isLoopHeader(at) {
+			var out []conj
+			for i, e := range x.Edges {
+				q := at.Preds[i]
+				if _, ok := p.cond[q]; !ok {
+					continue
+				}
+				ways, known := p.valueWays(e, q, want, depth+1)
+				if !known {
+					return nil, false
+				}
+				var eds []conj
+				if _, _, isPB := phiBranch(q, at); isPB {
+					eds = []conj{{}}
+					if lit := p.edgeLit(q, at); lit != "" {
+						eds = []conj{{lit}}
+					}
+				} else {
+					eds = p.edgeDNF(q, at)
+				}
+				for _, w := range ways {
+					for _, ed := range eds {
+						if n, ok := conjMerge(w, ed); ok {
+							out = append(out, n)
+						}
+					}
+				}
+			}
+			return simplify(out), true
+		}
+	}
+	term, neg := normCondTerm(p.t.Term(v))
+	pos := want
+	if neg {
+		pos = !pos
+	}
+	lit := "-" + term
+	if pos {
+		lit = "+" + term
+	}
+	var out []conj
+	for _, c := range pc.cs {
+		if n, ok := conjAdd(c, lit); ok {
+			out = append(out, n)
+		}
+	}
+	return out, true
+}
+
+// phiBranch: `from` ends in a two-way branch on a boolean merge defined in `from` itself;
+// want is the value of the merge on the edge to `to`.
+func phiBranch(from, to *ssa.BasicBlock) (*ssa.Phi, bool, bool) {
+	if len(from.Instrs) == 0 || len(from.Succs) != 2 || from.Succs[0] == from.Succs[1] {
+		return nil, false, false
+	}
+	ifi, ok := from.Instrs[len(from.Instrs)-1].(*ssa.If)
+	if !ok {
+		return nil, false, false
+	}
+	v := ifi.Cond
+	want := from.Succs[0] == to
+	for {
+		u, ok := v.(*ssa.UnOp)
+		if !ok || u.Op != token.NOT {
+			break
+		}
+		v = u.X
+		want = !want
+	}
+	ph, ok := v.(*ssa.Phi)
+	if !ok || ph.Block() != from {
+		return nil, false, false
+	}
+	return ph, want, true
 }
 
 // edgeLit is the literal that holds on the edge from -> to ("" when unconditional, or
